@@ -222,6 +222,12 @@ pub fn similar_args() -> Vec<Value> {
         crate::pool::dur(12096000000, 0), crate::pool::dur(12096000000, 1_000_000), crate::pool::dur(9223372036, 854_775_807), crate::pool::dur(9223372036, 854_775_808),
         crate::pool::dur(1, 0), crate::pool::dur(1, 1), Value::Float(1.5), Value::Float(1.0000000000000002), Value::Int(i64::MAX as i128), Value::Int(i64::MAX as i128 + 1), Value::Int(-1), Value::Int((1i128 << 64) - 1),
         Value::Vec(vec![Value::Vec(vec![Value::Int(1)])]), Value::Vec(vec![Value::Int(1), Value::None]), s("1 "), s(" 1"), s("\u{661}"),
+        // arguments whose flattened contents coincide: only where an inner list / map / string ends differs (a digest or a
+        // rendering without length prefixes or delimiters confuses them)
+        Value::Vec(vec![Value::Vec(vec![Value::Int(1), Value::Int(2)])]), Value::Vec(vec![Value::Vec(vec![Value::Int(1)]), Value::Int(2)]), Value::Vec(vec![Value::Int(1), Value::Int(2)]),
+        Value::Vec(vec![Value::Vec(vec![Value::Vec(vec![])])]), Value::Vec(vec![Value::Vec(vec![]), Value::Vec(vec![])]), Value::Vec(vec![Value::Vec(vec![]), Value::Vec(vec![Value::Vec(vec![])])]),
+        Value::Vec(vec![s("ab"), s("c")]), Value::Vec(vec![s("a"), s("bc")]), Value::Vec(vec![s("abc")]), Value::Vec(vec![s(""), s("abc")]),
+        map(&[("a", map(&[("b", Value::Int(1))]))]), map(&[("a", map(&[])), ("b", Value::Int(1))]), map(&[("ab", Value::Int(1))]), map(&[("a", s("b")), ("", Value::Int(1))]),
     ]
 }
 
